@@ -4,8 +4,8 @@ From Coq Require Import ZArith List.
 Import ListNotations.
 Open Scope Z_scope.
 
-(* fragment g_dot from sparse/numba_backend/_common.py:dot selector=None srchash=2d11e80271d5dc6f *)
-Definition g_dot (a : pyv) (b : pyv) (a_ndim : pyv) (b_ndim : pyv) : res pyv :=
+(* fragment g_dot from sparse/numba_backend/_common.py:dot selector=None srchash=6065eadeef552474 *)
+Definition g_dot (a : pyv) (b : pyv) (a_ndim : pyv) (b_ndim : pyv) (a_len : pyv) (b_len : pyv) : res pyv :=
 _ <- Ok VNone ;;
 t1_ <- Ok (VBool false) ;;
 if cond t1_ then (
@@ -13,23 +13,28 @@ Raise TypeError
 ) else (
 t2_ <- (t4_ <- (t5_ <- Ok a_ndim ;; py_eq t5_ (VInt (1))) ;; if cond t4_ then (t3_ <- Ok b_ndim ;; py_eq t3_ (VInt (1))) else Ok t4_) ;;
 if cond t2_ then (
-a <- (t6_ <- Ok (VBool true) ;; if cond t6_ then (
+t6_ <- py_ne a_len b_len ;;
+if cond t6_ then (
+Raise ValueError
+) else (
+a <- (t7_ <- Ok (VBool true) ;; if cond t7_ then (
 a <- Ok a ;;
 Ok (a)
 ) else (
 Ok (a)
 )) ;;
-b <- (t7_ <- Ok (VBool true) ;; if cond t7_ then (
+b <- (t8_ <- Ok (VBool true) ;; if cond t8_ then (
 b <- Ok b ;;
 Ok (b)
 ) else (
 Ok (b)
 )) ;;
 Ok (VTuple [VInt 0; a; b])
+)
 ) else (
 a_axis <- Ok (VInt (-1)) ;;
 b_axis <- Ok (VInt (-2)) ;;
-b_axis <- (t8_ <- (t9_ <- Ok b_ndim ;; py_eq t9_ (VInt (1))) ;; if cond t8_ then (
+b_axis <- (t9_ <- (t10_ <- Ok b_ndim ;; py_eq t10_ (VInt (1))) ;; if cond t9_ then (
 b_axis <- Ok (VInt (-1)) ;;
 Ok (b_axis)
 ) else (
